@@ -10,7 +10,142 @@ COMMON_NOTE = ("Trusted: Coq 8.16.1 kernel incl. vm_compute (no native_compute, 
                "are both computed inside Coq on what the implementation did); harness generators/driver/encoder; "
                "coq/Gen regenerated from the source and the running interpreter by harness/extract.py. ")
 
+T = "Coq proof ({how}) + in-Coq differential correspondence"
+
 CHECKS = {
+    "C17": dict(
+        text="Theorems (Props/C17.v, 17, all Closed under the global context): parse_multiline_as_lines(format_multiline_lines ls) "
+             "= ls exactly on the stated boolean domain (no line-boundary character; later lines neither whitespace-only nor a "
+             "lone '.'; ls <> ['']), with the one edge [''] -> [] stated; the text, License, space-separated and line-based "
+             "codecs are inverse on their domains; for ANY sequence of header operations and Files/License paragraph creations "
+             "in wf_copyright the document builds, and Copyright(dump) — strict or lax, as str, lines with or without line ends, "
+             "or file — equals the built document (same header, same paragraphs, Files first then License, properties equal the "
+             "inputs); on the wider domain the document still survives.  The document theorem is proved by COMPOSITION with "
+             "C02's dump/parse theorems (Deb822/Proofs.v), not assumed.",
+        design="§4 C17",
+        note=COMMON_NOTE + "Modelled not verified: every error path (rejected values, strict-mode complaints, Format rewrite/URL "
+             "repair) compared only; _CURRENT_FORMAT/_KNOWN_FORMATS regenerated into Gen/CopyrightConsts.v.  Hypothesis: no "
+             "Python line-boundary character other than LF in texts (the control-file domain, as C08 words it).",
+        technique=T.format(how="inverse laws + composition with the deb822 round-trip theorems")),
+    "C05": dict(
+        text="Theorems (Props/C05.v, 14, all Closed under the global context): on every valid document and every op list "
+             "(set / set_field_to_simple_value / set_field_from_raw_string / delete), each accepted operation is byte-local: "
+             "replacing keeps everything before the value (own comment and name as spelled) and after the field; a new field "
+             "goes after the paragraph's last field on lines of its own with at most one supplied LF that can only be non-empty "
+             "at the very end of the document; delete removes exactly the field's lines; rejected operations change nothing; "
+             "validity, paragraph count/order and free text are preserved over ANY history; the duplicate-fields index "
+             "invariant is preserved.  Read-back is proved on the edited object and per paragraph re-read (_partial: the "
+             "document-level re-parse of the whole dump is not proved; it is checked on every case by a fresh parse in holds).",
+        design="§4 C05",
+        note=COMMON_NOTE + "Modelled not verified: tokenizer leaves (match_field_line, is_ws_line, format_comment) compared per "
+             "run; operations on paragraphs that still contain repeated names are compared, only their index invariant is "
+             "proved.  Theorem domain: paragraphs without repeated field names.",
+        technique=T.format(how="byte-level locality by induction over documents and op lists")),
+    "C09": dict(
+        text="Theorems (Props/C09.v, 11, all Closed under the global context): on a pointer-level model (heap of linked-list nodes, "
+             "head/tail/size, OrderedSet table, Deb822Dict) the representation invariant holds after ANY history from empty, "
+             "dict-initialised or parsed starts; each of the 14 operations returns what the association-list reference returns "
+             "(value / KeyError / ValueError) and the abstraction commutes; an operation that raises leaves every paragraph "
+             "unchanged; dump-then-parse is the identity for plain names and single-line values; agree c -> holds c.  "
+             "Parametric in the lower-casing function.  Induction over histories.",
+        design="§4 C09",
+        note=COMMON_NOTE + "Modelled not verified: weak references as plain ids (no GC), Python dict as association list keyed by "
+             "the lowered key, sort_fields with its default key only, Deb822(text) start carried as the hypothesis "
+             "parse_text text = items (C02's subject); multi-line values through dump/parse are compared per case.",
+        technique=T.format(how="refinement of a heap-level doubly linked list to an association list, induction over histories")),
+    "C10": dict(
+        text="Theorems (Props/C10.v, 13, all Closed under the global context; one _partial): over any history of order_first/last/"
+             "before/after, sort_fields, indexed and unindexed set/delete, insert/append, the name index equals the filtered "
+             "document order in both paragraph classes, so (name,i) is the i-th occurrence in document order; dump = the "
+             "reference list's dump and every step is a permitted list outcome; moves and sort are permutations of whole "
+             "fields, sort is stable and ordered by lower-cased name; after any exception the fields are unchanged up to the one "
+             "supplied final LF, which is exactly one LF at the paragraph's end and only when missing.  "
+             "insert_append_no_merge is _partial: proved at the item level; that a fresh real parse shows one more paragraph is "
+             "checked on every case in holds, not proved.",
+        design="§4 C10",
+        note=COMMON_NOTE + "Modelled not verified: OrderedSet/LinkedList at list level here (pointer level is C09's), the text that "
+             "p[k]=v builds (C05's), negative insert indices compared only.  Theorems assume ops address existing paragraphs.",
+        technique=T.format(how="invariant + refinement to a list-of-fields spec, induction over histories")),
+    "C11": dict(
+        text="Theorems (Props/C11.v, 6, all Closed under the global context): for every value text in the domain and both "
+             "interpretations list(view) = split_spec (comment lines dropped, whole text split on the separator, trimmed, empties "
+             "dropped); open + reads + close leaves the document byte-identical; for whitespace-separated lists any sequence of "
+             "append/remove/replace — directly or through value references — does exactly the Python list operation or is "
+             "refused exactly when it is inapplicable, and after a successful close the written text is valid, re-parses to "
+             "itself and reads back as the edited list; a failing close leaves the text unchanged; only the value text of "
+             "that field changes.  NOT proved: edit read-back for comma-separated lists (statement kept in a comment; "
+             "compared on every run).",
+        design="§4 C11",
+        note=COMMON_NOTE + "Modelled not verified: the two finditer regex leaves, the shared text-cache slot of "
+             "Deb822ParsedValueElement (modelled as the IV flag), append_separator/newline/comment; value_ok is LF-only; "
+             "sessions read the list right after opening.  view_edit_local is true by construction of the model: its tie is "
+             "the correspondence.",
+        technique=T.format(how="refinement of token-list edits to list operations, induction over edit sequences")),
+    "C12": dict(
+        text="Theorems (Props/C12.v, 21, all Closed under the global context), quantified over the tables REGENERATED from the "
+             "source (Gen/MvTables.v): the tables equal the documented ones and are well formed; for every class and field, "
+             "get_as_string of any non-empty list of records of non-empty whitespace-free tokens parses back to the same "
+             "records in the same order; parsing exposes each line as a record under the documented names; dump is total for "
+             "every subset of present structured fields and stays total over any sequence of well-formed in-place edits; the "
+             "size column is rjust-ed to width 16 (Release/apt-ftparchive) or the longest size present (Release/dak, "
+             "PdiffIndex); the dumped text is the documented text and re-parses to the same paragraph.",
+        design="§4 C12",
+        note=COMMON_NOTE + "Modelled not verified: the Err branches (zero-record list, dak on a mapping) compared only; the Deb822 "
+             "text parser splitting the dump is C02's; names assumed US-ASCII.  The single-line form of a Release field under "
+             "dak (not a valid Release file) raises TypeError on dump: modelled, generated, outside the property.",
+        technique=T.format(how="round-trip and totality lemmas over the regenerated tables")),
+    "C13": dict(
+        text="Theorems (Props/C13.v, 6, all Closed under the global context): for every well-formed relation structure (boolean "
+             "wf_rels: any number of conjuncts and alternatives, all 2^4 combinations of arch qualifier / version constraint / "
+             "arch list / restriction formula) parse_relations(str(rels)) = (rels, 0 warnings), str of that is the identical "
+             "string, the Spec judgement used by holds is true of the model, the __dep_RE scanner returns exactly the written "
+             "groups on every formatted atom, and str is injective on the domain.  Induction over the structure.",
+        design="§4 C13",
+        note=COMMON_NOTE + "Modelled not verified: the hand-written scanner for __dep_RE and the separator/restriction patterns "
+             "(each compared on every run with the live compiled pattern objects), str.lower as ascii_lower (profiles ASCII), "
+             "\\w tabulated below U+3000; warnings compared by count.",
+        technique=T.format(how="structural induction over relation structures")),
+    "C14": dict(
+        text="Theorems (Props/C14.v, 19, all Closed under the global context): Version(s) constructs iff valid_spec s, for ALL "
+             "strings over all code points, with ValueError the only error; valid_spec is equivalent to the declarative Policy "
+             "grammar; the stored components are the unique decomposition (epoch before the first colon, revision after the "
+             "last hyphen), recompose to s, and str() returns s; from any state satisfying the invariant, assigning any "
+             "component any value (None/str/int) yields either the object Version(recomposition) would build or ValueError "
+             "with the state EQUAL to the one before; lifted to all assignment sequences; agree c -> holds c.  The character "
+             "classes are proved against Gen/VersionConsts.v, regenerated from the regex in the source: a widened class, \\d or "
+             "$ stops these lemmas compiling.",
+        design="§4 C14",
+        note=COMMON_NOTE + "Modelled not verified: the regex leaf's lazy/greedy split (proved equal to cutting at the last hyphen); "
+             "Version(BaseVersion), __repr__, apt_pkg variant not modelled.",
+        technique=T.format(how="iff against a grammar + invariant by induction over assignment sequences; classes regenerated from source")),
+    "C19": dict(
+        text="Theorems (Props/C19.v, 24, all Closed under the global context; the hash H is universally quantified): for EVERY "
+             "environment, local state and fault schedule update_file either returns lines with local = those lines and no "
+             ".new, or raises with local exactly as before and no .new (unless the unlink itself was scheduled to fail); with a "
+             "publishing index (any field order, extra fields), no faults and no digest collision among the history, from local "
+             "at any v_i / current / foreign / absent the result is Ok v_n — the patch chain via C18's theorems, also with the "
+             "index given as deb822 text and for the mirror of ANY history; absent / unparseable / structurally unusable index "
+             "= full download; a write/rename fault or a bad patch raises safely.  PARTIAL BY CONSTRUCTION: urllib, gzip, the "
+             "real file system's behaviour under a fault and process death are not modelled; faults are injected in the "
+             "harness process on every run.",
+        design="§4 C19",
+        note=COMMON_NOTE + "Hash assumptions are explicit hypotheses (boolean no_collision; 'no other content has v_n's digest'), "
+             "never axioms.  Not proved: the IdxUnusable rows as one statement ('a usable remainder is still used'); a lying "
+             "index has only the safety theorem; theorems assume no stale .new before the call.",
+        technique=T.format(how="invariant over all fault schedules; convergence by induction over the patch chain")),
+    "C20": dict(
+        text="Theorems (Props/C20.v, 21, all Closed under the global context): over any history of reads, inserts of new "
+             "packages and derivations, the two indexes stay mutually inverse and all seven query methods agree with the "
+             "reference relation — unconditionally for the one-token-repaired insert, and for the code as written exactly "
+             "under the side condition excluding the K1 trigger (proved exact: a triggering insert ALWAYS breaks the "
+             "invariant; witness kept as inverse_invariant_refuted); off the trigger the two runs coincide; on the heap "
+             "(aliasing) layer that agree runs: copy() and every derivation documented as copying are independent of the "
+             "original under any interleaving of inserts; agree -> holds on trigger-free histories.  K1 is a KNOWN FINDING "
+             "(known_findings.json): the test-suite asserts the defective behaviour, so it cannot be repaired.",
+        design="§4 C20",
+        note=COMMON_NOTE + "Modelled not verified: parse_tags and facet regex leaves (compared per run); iteration order of "
+             "self.db taken from the implementation for facet_collection; set iteration order, pickle, output() out of scope.",
+        technique=T.format(how="invariant by induction over operation histories, linear and heap layers")),
     "C02": dict(
         text="Theorems (Props/C02.v, 18, all Closed under the global context): for every valid paragraph (boolean valid_para) "
              "dump is the Policy line list and Deb822/Dsc/Changes(dump d) = the fields with first lines trimmed, in order; for "
